@@ -362,12 +362,30 @@ class _SyncSerial(_Conn):
         pass
 
 
+class _DgramSocket(_Sock):
+    """the server's datagram socket: recvfrom(n) hands out ONE datagram, cut to n bytes as UDP does"""
+
+    def __init__(self):
+        _Sock.__init__(self)
+        self.pending = []
+
+    def recvfrom(self, n):
+        data, addr = self.pending.pop(0)
+        return data[:n], addr
+
+
 class _SyncDgram(_Conn):
     def feed(self, chunk, fault=None):
         from pymodbus.server.sync import ModbusDisconnectedRequestHandler as H
-        sock = _Sock()
+        srv = self.srv.obj
+        sock = _DgramSocket()
+        sock.pending.append((bytes(chunk), self.peer))
         try:
-            H((bytes(chunk), sock), self.peer, self.srv.obj)
+            # the datagram goes through the server's own receive path (socketserver.UDPServer.get_request), then the
+            # handler is run as socketserver does
+            srv.socket = sock
+            request, addr = srv.get_request()
+            H(request, addr, srv)
         except BaseException as e:   # noqa
             self.srv.escaped.append(('sync-udp.handle', e))
         return self._take(sock.writes)
